@@ -55,6 +55,10 @@ def run_shard(prop, tier, seed, shard, nshards, only_case=None):
         fpobs.start()
         if hasattr(mod, "setup"):
             state = mod.setup(rec, tier)
+        from . import contracts as _cp
+
+        for base, sub, member, which in _cp.propagate_overrides():
+            rec.note(f"monitor of {base}.{member} also installed on the override in {sub}")
         todo = [only_case] if only_case is not None else range(shard, n, nshards)
         for i in todo:
             rec.case = i
